@@ -52,12 +52,20 @@ func constSnippet(i int, pos string) []Stmt {
 		return []Stmt{Def(v("f"), &FuncLit{Params: []string{"x", "y"}, Body: []Stmt{&Return{X: B("-", I("x"), I("y"))}}}), Def(v("a"), C(I(v("f")), N("9"), N("2")))}
 	case 17:
 		return []Stmt{Def(v("f"), &FuncLit{Params: []string{"x", "y"}, Body: []Stmt{&Return{X: B("-", I("x"), I("y"))}}}), Def(v("a"), C(I(v("f")), S(`"a"`), N("2")))}
+	case 18: // a builtin module and no other constant: two copies are the only duplicate
+		return []Stmt{Def(v("m"), &Import{Name: "math"}), Def(v("a"), C(I("is_immutable_map"), I(v("m"))))}
+	case 19: // host module whose value is a bare singleton: identity must survive every transformation
+		return []Stmt{Def(v("m"), &Import{Name: "flagmod"}), Def(v("u"), &Import{Name: "undefmod"}),
+			Def(v("a"), &ArrayLit{Elems: []Expr{B("==", I(v("m")), True()), B("==", I(v("u")), Undef()), B("==", &Import{Name: "offmod"}, False())}})}
+	case 20: // host modules with scalar / immutable-array values
+		return []Stmt{Def(v("n"), &Import{Name: "nummod"}), Def(v("l"), &Import{Name: "listmod"}),
+			Def(v("a"), &ArrayLit{Elems: []Expr{B("+", I(v("n")), N("1")), B("==", &Index{X: I(v("l")), I: N("0")}, True()), B("==", &Index{X: I(v("l")), I: N("1")}, Undef())}})}
 	}
 	return nil
 }
 
 // NumConstSnippets is the pool size.
-const NumConstSnippets = 18
+const NumConstSnippets = 21
 
 // ConstModules are the source modules available to the consts family.
 func ConstModules() map[string][]Stmt {
